@@ -310,8 +310,8 @@ def _programs():
             sh = await rt.gather(ops)
             return got, want, [s.value for s in sh], p, (a, b)
         return prog
-    from sx import mpprogs
-    return dict(int_ops=P_int_ops, **mpprogs.PROGRAMS)
+    from sx import mpprogs, mpprogs_grp
+    return dict(int_ops=P_int_ops, **mpprogs.PROGRAMS, **mpprogs_grp.PROGRAMS)
 
 
 def concrete_program(m, t, no_prss, prog_name, l, k, seeds):
